@@ -1,1 +1,87 @@
-import RaftLogModel.Spec.RefLog
+/-
+C06 — Rejected writes leave no trace.
+
+Model level: a call that returns a validation error returns the *whole* store
+unchanged (pending bytes, offsets, index, cache with its counters, removal
+list) and emits no effect (nothing created, written or queued). The link
+"the reference log rejects ⇒ the model returns that error" is
+`c06_spec_rejects_*` below (same state ⇒ same verdict).
+-/
+import RaftLogModel.Proofs.StoreBasic
+namespace RaftLog
+
+/-- One journal record: if validation fails nothing at all happens. -/
+theorem c06_rejected_record_noop (s : Store) (fsHas : Nat → Bool) (r : Record) (k : ErrKind)
+    (h : s.st.apply r = .err k) : s.appendAndApply fsHas r = (.err k, s, []) := by
+  simp [Store.appendAndApply, h]
+
+/-- Conversely an error other than a failed file creation can only be a
+validation error, and then the store and the effect list are untouched. -/
+theorem c06_err_is_noop (s : Store) (fsHas : Nat → Bool) (r : Record) (k : ErrKind)
+    (s' : Store) (effs : List Eff)
+    (h : s.appendAndApply fsHas r = (.err k, s', effs)) (hk : k ≠ .exists) :
+    s' = s ∧ effs = [] ∧ s.st.apply r = .err k :=
+  appendAndApply_err h hk
+
+/-- Every single-record public call: a returned validation error means the
+store is returned unchanged and nothing was emitted. -/
+theorem c06_rejected_call_noop (s : Store) (fsHas : Nat → Bool) (op : Op) (k : ErrKind)
+    (s' : Store) (effs : List Eff) (hop : ∀ es, op ≠ .append es)
+    (h : s.call fsHas op = (.err k, s', effs)) (hk : k ≠ .exists) :
+    s' = s ∧ effs = [] := by
+  cases op with
+  | saveVote v => exact ⟨(c06_err_is_noop s fsHas _ k s' effs h hk).1, (c06_err_is_noop s fsHas _ k s' effs h hk).2.1⟩
+  | commit id => exact ⟨(c06_err_is_noop s fsHas _ k s' effs h hk).1, (c06_err_is_noop s fsHas _ k s' effs h hk).2.1⟩
+  | saveUserData d =>
+    simp only [Store.call] at h
+    exact ⟨(c06_err_is_noop s fsHas _ k s' effs h hk).1, (c06_err_is_noop s fsHas _ k s' effs h hk).2.1⟩
+  | append es => exact absurd rfl (hop es)
+  | truncate idx =>
+    simp only [Store.call] at h
+    split at h
+    · simp at h
+    · split at h
+      · exact ⟨(c06_err_is_noop s fsHas _ k s' effs h hk).1, (c06_err_is_noop s fsHas _ k s' effs h hk).2.1⟩
+      · split at h
+        · simp only [Prod.mk.injEq] at h; exact ⟨h.2.1.symm, h.2.2.symm⟩
+        · split at h
+          · simp only [Prod.mk.injEq] at h; exact ⟨h.2.1.symm, h.2.2.symm⟩
+          · exact ⟨(c06_err_is_noop s fsHas _ k s' effs h hk).1, (c06_err_is_noop s fsHas _ k s' effs h hk).2.1⟩
+  | purge upto =>
+    simp only [Store.call] at h
+    split at h
+    · simp at h
+    · split at h
+      · split at h <;> simp at h
+      · split at h
+        · simp at h
+        · exact ⟨(c06_err_is_noop s fsHas _ k s' effs h hk).1, (c06_err_is_noop s fsHas _ k s' effs h hk).2.1⟩
+
+/-- A batch `append` applies its accepted prefix; the first rejected entry
+leaves no trace: the store is exactly the one reached by the entries before
+it, with exactly their effects. -/
+theorem c06_batch_rejected_entry_noop (fsHas : Nat → Bool) (id : LogId) (p : Bytes)
+    (rest : List (LogId × Bytes)) (s : Store) (seg : Seg) (effs : List Eff) (k : ErrKind)
+    (h : s.st.apply (.append id p) = .err k) :
+    Store.appendBatch fsHas ((id, p) :: rest) s seg effs = (.err k, s, effs) := by
+  simp [Store.appendBatch, c06_rejected_record_noop s fsHas _ k h]
+
+/-! ### Same state ⇒ same verdict as the reference log -/
+
+theorem c06_spec_rejects_vote (s : Store) (r : RefLog) (v : Vote) (hs : s.st = r.state) :
+    (∃ k, r.call (.saveVote v) = .error k) ↔ (∃ k, s.st.apply (.saveVote v) = .err k) := by
+  simp only [RefLog.call, RState.apply, RState.updateVote, hs, RefLog.state]
+  split <;> simp
+
+theorem c06_spec_rejects_commit (s : Store) (r : RefLog) (id : LogId) (hs : s.st = r.state) :
+    (∃ k, r.call (.commit id) = .error k) ↔ (∃ k, s.st.apply (.commit id) = .err k) := by
+  simp only [RefLog.call, RState.apply, RState.commit, hs, RefLog.state]
+  split <;> simp
+
+/-- Non-vacuity: a concrete rejected write on a concrete store. -/
+example :
+    let s : Store := { cfg := {}, cache := { maxItems := 10, capacity := 100 }, openOffsets := [0, 18],
+                       st := { vote := some ⟨3, 1⟩ } }
+    s.st.apply (.saveVote ⟨2, 9⟩) = .err .voteReversal := by decide
+
+end RaftLog
